@@ -101,7 +101,7 @@ type sentPk struct {
 func main() {
 	seed := lib.Seed()
 	e := &env{r: lib.NewRand(seed), rep: lib.NewReport("C19"), local: map[common.Address]string{}}
-	e.rep.Rule = "one case = one history of 12-30 operations on a branch of the real app: sends from the EVM precompile (ERC-20 of an alias token, native FX, refused kinds), plain sends (FX, alias voucher, own voucher), inbound packets (denom FX-return / own voucher / alias voucher / unregistered / wrong channel; receiver hex / bech32 / garbage; amount incl. 0; memo none / text / malformed call / call / reverting call, derived sender with or without account), ack ok|err, timeout, duplicated and replayed deliveries, pair toggles, two channels; " +
+	e.rep.Rule = "one case = one history of 12-30 operations on a branch of the real app: sends from the EVM precompile (ERC-20 of an alias token, native FX, refused kinds), plain sends (FX, alias voucher, own voucher), inbound packets (denom FX-return / own voucher / alias voucher / unregistered / wrong channel; receiver hex / bech32 / garbage; amount incl. 0; memo none / text / malformed call / call / reverting call, derived sender with or without account), ack ok|err, timeout, duplicated and replayed deliveries, pair toggles, three channels whose remote ends carry other ids (local channel-7 = the remote id of channel-11, equal sequences in flight on both); one lifecycle history on the chain itself with a genesis export / import in the middle; " +
 		"non-trivial = the history contains a refund of an EVM-started transfer or an error acknowledgement after the transfer module had credited; distinct by operation list"
 	n := 30
 	if lib.Tier() == "thorough" {
@@ -141,7 +141,7 @@ func (e *env) setup(seed int64) {
 	e.c = c
 	lib.Must(c.NextBlock())
 	ctx := c.Ctx
-	// two channels whose ids are decimal-prefix related, with send sequences chosen so that the k-th packet of one and
+	// channel-11 and channel-1: ids decimal-prefix related, with send sequences chosen so that the k-th packet of one and
 	// the k-th packet of the other read the same when channel id and sequence are written next to each other
 	// (channel-11 / k  vs  channel-1 / 1k): a relation key that is not injective shows up
 	// every channel's remote end carries an id DIFFERENT from the local one, and local / remote ids come from overlapping sets:
